@@ -13,6 +13,11 @@ CLAIMED = {
         technique="Lean 4 proof (induction over the codec state machine) + model/implementation differential",
         design="7/C19"),
 }
+CLAIMED["C01"] = dict(
+    text="Lean 4 soundness theorems over an executable model of every JWS verification path (compact, flattened and general JSON, RFC 7797 compact and JSON; registry/header checks, key resolution, per-algorithm verify wrappers), for ALL primitives, registries, keys and input octets: a returned object implies three dot-free segments, header/payload decoded from the received segments, at least one signature, and every signature valid (per RFC family: HMAC equality, ECDSA exact R||S length, none never) over exactly the received protected-header and payload octets under the resolved key and allowed algorithm; contrapositive rejection theorems and exact-HMAC tamper corollaries; RFC 7797 switch read from the protected header. Tied to /repo by a model-vs-implementation differential over reference-signed tokens and their tamperings, plus an independent reference verifier as property oracle.",
+    note="Trusted: Lean kernel; hand-written model checked (not proved) against joserfc by the differential; primitives (json, hmac, pyca verify) are parameters, no law assumed; cryptographic unforgeability is not claimed. Known finding D02b (unprotected b64 with no protected header) is stated as a theorem and listed in KNOWN_FINDINGS.json.",
+    technique="Lean 4 proof (soundness relative to abstract primitives) + oracle-protocol differential + reference verifier",
+    design="7/C01")
 PENDING = {}
 
 
@@ -38,7 +43,7 @@ def main():
             na.append({"property_id": pid, "reason": PENDING.get(pid, "check not built yet in this round (planned per DESIGN.md §7; Lean proof is applicable)")})
     m = {
         "version": 1,
-        "setup_cmd": "cd lean && lake build Jose Lemmas Props josedriver",
+        "setup_cmd": "python3 tools/extract.py && cd lean && lake build Jose Generated Lemmas Props josedriver",
         "hooks": {
             "guard": "JOSERFC_VERIF",
             "enable": "none needed: no instrumentation is placed in /repo; all interception is monkey-patching inside the harness process",
